@@ -7,6 +7,7 @@ import (
 	"verif/checks/c07"
 	"verif/checks/c08"
 	"verif/checks/c09"
+	"verif/checks/c10"
 	"verif/checks/c12"
 	"verif/checks/c13"
 	"verif/engine/ev"
@@ -19,6 +20,7 @@ func main() {
 		"C07": c07.Check,
 		"C08": c08.Check,
 		"C09": c09.Check,
+		"C10": c10.Check,
 		"C12": c12.Check,
 		"C13": c13.Check,
 	})
